@@ -99,8 +99,11 @@ func vpNewLegacy(w http.ResponseWriter) (*vpTransport, error) {
 // SendAccept writes the HTTP response head (and the seed) to the hijacked connection: it is a write on
 // the client connection like any packet, and other requests are served while it is in flight.
 func (t *vpTransport) SendAccept(seed bool) {
-	vpMu.Lock()
 	t.accepts++
+	if !t.countOverlaps {
+		return
+	}
+	vpMu.Lock()
 	t.inflight++
 	if t.inflight > 1 {
 		t.overlaps++
